@@ -14,7 +14,8 @@ from stix2.equivalence.pattern.transform.specials import (
 )
 from stix2.patterns import (
     AndBooleanExpression, ObjectPath, OrBooleanExpression,
-    ParentheticalExpression, _BooleanExpression, _ComparisonExpression,
+    ParentheticalExpression, StringConstant, _BooleanExpression,
+    _ComparisonExpression,
 )
 
 
@@ -389,7 +390,16 @@ class SpecialValueCanonicalization(ComparisonExpressionTransformer):
     in constant values.
     """
     def transform_comparison(self, ast):
-        if ast.lhs.object_type_name == "windows-registry-key":
+        # These canonicalizations rewrite a string which is compared for
+        # equality.  Constants of other types cannot be rewritten this way,
+        # and the operand of a pattern-matching or ordering operator (LIKE,
+        # MATCHES, <, ...) means something else than a value.
+        if not (
+            isinstance(ast.rhs, StringConstant) and ast.operator == "="
+        ):
+            pass
+
+        elif ast.lhs.object_type_name == "windows-registry-key":
             windows_reg_key(ast)
 
         elif ast.lhs.object_type_name == "ipv4-addr":
